@@ -553,7 +553,47 @@ def rule_consistency_check(ctx):
     ctx.check(ctx.cat.compiles(q) is None and "node.detached = (all_products.current IS NOT NULL)" in re.sub(r"\s+", " ", q), "trellis.CHECK_DETACHED_REACHABILITY", "reports detached<->reachable mismatches", "query changed", "compiles; mismatch predicate")
 
 
+SETTERS = {
+    # function -> the write it is named after (rules elsewhere decide that it is *called*; here: that it writes)
+    "step.Step.set_state": ("UPDATE", "step", "state"),
+    "step.Step.set_hash": ("INSERT", "step_hash", None),
+    "step.Step.delete_hash": ("DELETE", "step_hash", None),
+    "step.Step.set_env_overrides": ("UPDATE", "step", "env_overrides"),
+    "step.Step.add_env_deps": ("INSERT", "env_var", None),
+    "step.Step.amend_env_deps": ("INSERT", "env_var", None),
+    "step.Step.refresh_env_dep": ("UPDATE", "env_var", "value"),
+    "step.Step.add_nglob": ("INSERT", "nglob", None),
+    "step.Step.hold": ("UPDATE", "step", "_holding"),
+    "step.Step.release": ("UPDATE", "step", "_holding"),
+    "file.File.set_state": ("UPDATE", "file", "state"),
+}
+
+
+def rule_setters_write(ctx):
+    """R-C09-9: the primitive setters of the graph perform the write they are named after, unconditionally.
+
+    Many rules decide that a setter is called at the right place (set_hash together with SUCCEEDED, delete_hash on
+    failure, set_env_overrides on recycle, ...).  Those rules say nothing if the setter itself stops writing.
+    """
+    for fq, want in sorted(SETTERS.items()):
+        fi = ctx.prog.func(fq)
+        hits = [s_ for s_ in ctx.sql.stmts_in(fq) if any((w[0], w[1], w[2]) == want and w[3] is None for w in s_.writes)]
+        parents = {}
+        for n in ast.walk(fi.node):
+            for c in ast.iter_child_nodes(n):
+                parents[c] = n
+        def conditional(node):
+            while node in parents:
+                node = parents[node]
+                if isinstance(node, (ast.If, ast.IfExp, ast.Try, ast.For, ast.While)):
+                    return True
+            return False
+        ok = any(not conditional(h.site.call) for h in hits)
+        ctx.check(ok, fq, f"writes {want[1]}{'.' + want[2] if want[2] else ''} ({want[0]}) unconditionally", f"{len(hits)} statement(s) with that effect, none unconditional: every caller believes the value is stored", "one unconditional statement", where=ctx.where_of(fi))
+
+
 RULES = [
+    Rule("R-C09-9", "primitive setters perform their write", rule_setters_write, min_instances=11),
     Rule("R-C09-1", "row invariants guarded by CHECK / RAISE triggers", rule_guards, min_instances=17),
     Rule("R-C09-2", "table ownership", rule_ownership, min_instances=25),
     Rule("R-C09-3", "detached flag maintenance", rule_detached_maintenance, min_instances=5),
@@ -570,6 +610,8 @@ def _drop_trigger(name, file):
 
 
 MUTANTS = [
+    Mutant("set-env-overrides-writes-nothing", "step.py", in_function("Step.set_env_overrides", lambda t: __import__("re").sub(r"\n        self\.db\.execute\(\s*\"UPDATE step SET env_overrides = \?[^\n]*\n(?:[^\n]*\n)*?\s*\)\n|\n        self\.db\.execute\(\"UPDATE step SET env_overrides = \? WHERE node = \?\", \(value, self\.i\)\)\n", "\n        pass\n", t, count=1) if "UPDATE step SET env_overrides" in t else None), ("R-C09-9",)),
+    Mutant("delete-hash-deletes-nothing", "step.py", in_function("Step.delete_hash", lambda t: t.replace("self.db.execute(", "(lambda *a: None)(", 1) if "self.db.execute(" in t else None), ("R-C09-9",)),
     Mutant("cycle-check-skips-detached-inputs", "workflow.py", in_function("Workflow._supply_files", replace_once("new_file_is = [file.i for file, _, _, new_relation in resolved if new_relation]", "new_file_is = [file.i for file, _, detached, new_relation in resolved if new_relation and not detached]")), ("R-C09-4",)),
     Mutant("reattach-no-creator-chain-check", "trellis.py", in_function("Node.reattach", replace_once("        self.check_creator_acyclic(new_creator)\n", "")), ("R-C09-8",)),
     Mutant("create-no-self-creator-check", "trellis.py", in_function("Trellis.create", replace_once("            if creator is not None and creator.i == node.i:\n                raise CyclicError(f\"Node ({node.key()}) cannot be created by itself.\")\n", "")), ("R-C09-8",)),
